@@ -91,7 +91,8 @@ def _run(fn):
     try:
         return "ok", fn()
     except BaseException as e:  # noqa
-        if isinstance(e, (SystemExit,)):
+        from .sched import SchedAbort
+        if isinstance(e, SchedAbort):
             raise
         return "raise:" + type(e).__name__, e
 
